@@ -8,7 +8,7 @@ from ..core import Report
 from ..eqterms import Inconclusive, equal, explain
 from ..model import Program
 from ..refs import FORMULAS, eval_ref_method
-from ..terms import C, Interp, find_unknown, has_unknown, is_const, key, mk_add, mk_neg, same, show, subst, walk
+from ..terms import C, Env, Interp, find_unknown, has_unknown, is_const, key, mk_add, mk_neg, same, show, subst, walk
 from .bij import COND, SELF, X, method_site, method_term
 from .spline import SPLINE, rule_bin, spline_method_term, table_subscripts
 
@@ -168,11 +168,28 @@ def rule_formula(prog, rep):
     want, _ = eval_ref_method(prog, c, ref_src, [("sym", "w"), ("sym", "u"), ("sym", "b"), ("sym", "slope")],
                               want_fields=True)
     site = method_site(prog, c, "__init__")
-    for f in ("weight", "bias", "_act_scale", "negative_slope", "activation_fn"):
+    for f in ("weight", "bias", "_act_scale", "negative_slope"):
         if f not in fields:
             rep.undecided("C07.formula", site, f"_UnconditionalPlanar.{f}", "field not assigned in __init__")
             continue
         compare(rep, "C07.formula", site, f"_UnconditionalPlanar.__init__:{f}", fields[f], want[f], f"field {f}")
+    # the activation, as applied: a stored callable or a method - tanh(z) without a slope, leaky_relu(z, slope) with one
+    Z = ("sym", "Z")
+
+    def applied(flds):
+        it2 = Interp(prog)
+        it2.self_fields = dict(flds)
+        env = Env()
+        env.set("self", SELF)
+        env.set("z", Z)
+        return it2.as_term(it2.ev(ast.parse("self.activation_fn(z)").body[0].value, env, (c.module, c, SELF)))
+    try:
+        got_act, want_act = applied(fields), applied(want)
+    except Exception as e:  # noqa: BLE001
+        rep.undecided("C07.formula", site, "_UnconditionalPlanar.activation", f"activation not evaluated: {e}")
+    else:
+        compare(rep, "C07.formula", site, "_UnconditionalPlanar.__init__:activation_fn", got_act, want_act,
+                "activation applied to z")
 
 
 def rule_planar_wiring(prog, rep):
